@@ -30,7 +30,11 @@ RULE = ("cases = corpus (defect witnesses, corner cases) + N random histories of
         "boolean values; mostly quiet rule sets), 2 in 50 of the family 'many rules, two-digit handles' (11..13 quiet rules R0..R12 whose names "
         "differ in trailing digits only, 11..24 facts, name+handle of two (rule, fact) pairs read the same, the pair queued first made stale), "
         "2 in 50 of the family 'rules of another fact type re-activated by the re-propagation after a firing' (2..3 types, fire_all, reset, one "
-        "type touched, fire_all) "
+        "type touched, fire_all), 4 in 50 of the family 'an action changes only the TYPE of a field' (a writer rule assigns Float n.0 where "
+        "Integer n stands or the reverse — same printed form, different value for == / != —, one or two type-sensitive reader rules above or "
+        "below it, fire_all, optional reset / update / fire_all; the glue-level oracle clause action_write_lost of Driver/C06.lean: when the "
+        "matched fact is the only live fact of its type, the next firing on it / the view after the call shows the recorded contents plus the "
+        "rule's assignments, as typed values) "
         "(alpha nodes with ==,!=,<,<=,>,>= against integer/float/boolean/string/null literals or another field, combined by and/or/not; actions: "
         "none, assignments of literals to fields of the rule's type, retract of the matched fact). Rules are built through the public "
         "API with exactly the node GrlReteLoader builds and an action closure that records (rule, matched handle, contents of the matched "
